@@ -410,6 +410,24 @@ func (r *run10) execSteps(sc *sim.Scenario, check bool, final bool) {
 			id := []int{r.fcW, r.fcB}[st.N%2]
 			(*r.fc.Weights()[st.N%2].Value).ResetGradContext(st.B)
 			may[id] = true
+		case "grad":
+			// hold a reference to the gradient tensor: from now on it is an
+			// existing tensor like any other (an alias of one already held is skipped)
+			g := r.pool.T[st.In[0]].Gradient()
+			h = h.Str(fmt.Sprint(g != nil))
+			if g != nil {
+				dup := false
+				for _, id := range r.order {
+					if r.pool.T[id] == g {
+						dup = true
+						break
+					}
+				}
+				if !dup {
+					r.pool.T[st.Out] = g
+					r.order = append(r.order, st.Out)
+				}
+			}
 		case "backprop":
 			root := st.In[0]
 			err := tensor.BackPropagate(r.pool.T[root])
@@ -816,6 +834,10 @@ func (c10) Generate(r *sim.Rand, tier string) *sim.Scenario {
 			if add(lf) {
 				add(sim.Step{Op: "fcforward", In: []int{lf.Out}, Out: ids.New()})
 			}
+			k++
+		case x < 78:
+			id := order[r.Intn(len(order))]
+			add(sim.Step{Op: "grad", In: []int{id}, Out: ids.New()})
 			k++
 		case x < 88:
 			// back-propagate a recent result
